@@ -10,6 +10,7 @@ import (
 	"runtime"
 	"runtime/debug"
 	"strconv"
+	"strings"
 	"sync/atomic"
 	"testing"
 	"testing/synctest"
@@ -347,7 +348,19 @@ func replayMain(t *testing.T) int {
 	return 0
 }
 
+// firstLines returns the first n lines of s, each cut at 400 bytes (the
+// replay file holds the detail in full).
 func firstLines(s string, n int) string {
+	parts := strings.SplitN(firstLinesRaw(s, n), "\n", n+1)
+	for i, p := range parts {
+		if len(p) > 400 {
+			parts[i] = p[:400] + fmt.Sprintf(" ... (%d bytes)", len(p))
+		}
+	}
+	return strings.Join(parts, "\n")
+}
+
+func firstLinesRaw(s string, n int) string {
 	lines := 0
 	for i := 0; i < len(s); i++ {
 		if s[i] == '\n' {
